@@ -255,7 +255,12 @@ def compiled_model_samples(run, m, n, rng):
     for cse in (True, False):
         for cal_round in range(max(1, n // 6)):
             cal = {kk: float(v) for kk, v in random_point(rng).items()}
-            model = py.compile(m.symbolic_model, calibration_map={s: cal.get(s.name, 0.25) for s in cal_syms}, config={"common_subexpression_elimination": cse})
+            # the calibration map is written in an order of the caller's choosing (here: shuffled, never the name-sorted one)
+            order = list(cal_syms)
+            rng.shuffle(order)
+            if order == cal_syms and len(order) > 1:
+                order.reverse()
+            model = py.compile(m.symbolic_model, calibration_map={s: cal.get(s.name, 0.25) for s in order}, config={"common_subexpression_elimination": cse})
             for k in range(min(n, 6)):
                 pt = {kk: float(v) for kk, v in random_point(rng).items()}
                 pt.update({s.name: cal.get(s.name, 0.25) for s in cal_syms})
